@@ -658,7 +658,7 @@ HCcreate(int32 file_id, uint16 tag, uint16 ref, comp_model_t model_type, model_i
 
     /* clear error stack and validate args */
     HEclear();
-    file_rec = HAatom_object(file_id);
+    file_rec = HIfid2rec(file_id);
     if (BADFREC(file_rec) || SPECIALTAG(tag) || (special_tag = MKSPECIALTAG(tag)) == DFTAG_NULL)
         HRETURN_ERROR(DFE_ARGS, FAIL);
 
@@ -798,7 +798,7 @@ HCPgetcompinfo(int32 file_id, uint16 data_tag, uint16 data_ref,
     aid = Hstartread(file_id, data_tag, data_ref);
 
     /* get the access_rec pointer */
-    access_rec = HAatom_object(aid);
+    access_rec = HIaid2rec(aid);
     if (access_rec == NULL)
         HGOTO_ERROR(DFE_ARGS, FAIL);
 
@@ -877,7 +877,7 @@ HCIstaccess(accrec_t *access_rec, int16 acc_mode)
     int32       ret_value = SUCCEED;
 
     /* get file record and validate */
-    file_rec = HAatom_object(access_rec->file_id);
+    file_rec = HIfid2rec(access_rec->file_id);
     if (BADFREC(file_rec) || !(file_rec->access & acc_mode))
         HRETURN_ERROR(DFE_ARGS, FAIL);
 
@@ -1074,7 +1074,7 @@ HCPwrite(accrec_t *access_rec, int32 length, const void *data)
     int32       ret_value;
 
     /* convert file id to file record */
-    file_rec = HAatom_object(access_rec->file_id);
+    file_rec = HIfid2rec(access_rec->file_id);
 
     /* validate length */
     if (length < 0)
@@ -1185,7 +1185,7 @@ HCPendaccess(accrec_t *access_rec)
         HGOTO_ERROR(DFE_ARGS, FAIL);
 
     /* convert file id to file record */
-    file_rec = HAatom_object(access_rec->file_id);
+    file_rec = HIfid2rec(access_rec->file_id);
     if (BADFREC(file_rec))
         HGOTO_ERROR(DFE_ARGS, FAIL);
 
@@ -1381,7 +1381,7 @@ HCPgetcomptype(int32 file_id, uint16 data_tag, uint16 data_ref, /* IN: tag/ref o
     HEclear();
 
     /* convert file id to file rec and check for validity */
-    file_rec = HAatom_object(file_id);
+    file_rec = HIfid2rec(file_id);
     if (BADFREC(file_rec))
         HGOTO_ERROR(DFE_ARGS, FAIL);
 
@@ -1509,7 +1509,7 @@ HCPgetdatasize(int32 file_id, uint16 data_tag, uint16 data_ref, /* IN: tag/ref o
     HEclear();
 
     /* convert file id to file rec and check for validity */
-    file_rec = HAatom_object(file_id);
+    file_rec = HIfid2rec(file_id);
     if (BADFREC(file_rec))
         HGOTO_ERROR(DFE_ARGS, FAIL);
 
